@@ -833,11 +833,11 @@ def execIterNext (op : Nat) : M Ctl := do
       if op == OpIterNext then
         match k with
         | .arr _ _ l =>
-          heapSet a (.iter k (i + 1)); stackSet (sp - 1) (.bool (decide (i < (l : Int)))); return .next
+          heapUpd a (.iter k (i + 1)); stackSet (sp - 1) (.bool (decide (i < (l : Int)))); return .next
         | .bytes s =>
-          heapSet a (.iter k (i + 1)); stackSet (sp - 1) (.bool (decide (i < (s.length : Int)))); return .next
+          heapUpd a (.iter k (i + 1)); stackSet (sp - 1) (.bool (decide (i < (s.length : Int)))); return .next
         | .map _ keys =>
-          heapSet a (.iter k (i + 1)); stackSet (sp - 1) (.bool (decide (i < (keys.length : Int)))); return .next
+          heapUpd a (.iter k (i + 1)); stackSet (sp - 1) (.bool (decide (i < (keys.length : Int)))); return .next
         | .str _ _ _ => unsupported "string iteration (utf8 decoding)"
       else if op == OpIterKey then
         match k with
